@@ -119,15 +119,20 @@ PROPS = {
     ),
     "C12": dict(
         verus=[("emf_sample", {})],
-        kani=["writer_sample", "emf_num", "writer_congress"],
-        technique="Verus contract on the real SampledEmf::format_with_sample_rate + Kani proof harnesses (loop-free, full-domain symbolic inputs) on the real FixedFractionSample::format, rate_to_n_alpha, rate_to_n, ExpMovingAverage::add_sample, GroupState::update_and_retain",
+        kani=["writer_sample", "emf_num", "writer_congress", "writer_congress_rates"],
+        technique="Verus contract on the real SampledEmf::format_with_sample_rate + Kani proof harnesses (loop-free, full-domain symbolic inputs) on the real FixedFractionSample::format, rate_to_n_alpha, rate_to_n, ExpMovingAverage::add_sample, GroupState::update_and_retain; bounded Kani check of the real update_rates body on <= 2 groups",
         level_text="Kani/CBMC proof for every representable f32 rate in (0,1] and every random draw that the fixed-fraction sampler forwards exactly when draw <= rate, once, with that rate; that the EMF weight is "
                    "floor(1/rate) or floor(1/rate)+1, chosen as n iff draw < alpha with alpha = (n+1) - 1/rate exactly (so its expectation is 1/rate), saturating at u64::MAX below 2^-63 (partitioned by binade: quick tier 5 binades + small rates, thorough all 52); "
-                   "and single-step contracts for the congressional sampler's per-group state. The congress budget / monotonicity invariants of update_rates (ahash map) are NOT decided.",
-        level_note="Trusted: CBMC float model, rand's StandardUniform conversion is executed (not stubbed), scripted RngCore supplies arbitrary words. update_rates over the hash map is outside CBMC's budget.",
+                   "single-step contracts for the congressional sampler's per-group state; and a BOUNDED check (0, 1 and 2 groups, every group state satisfying the per-group invariant, every u32 target and interval count) of the real "
+                   "update_rates body: every rate is a number in [0,1], all rates are exactly 1 when the interval saw no more than the target, the interval counter is reset. "
+                   "The congress budget sum(avg x rate) <= target, strict positivity and monotonicity of update_rates are NOT decided (relational float facts).",
+        level_note="Trusted: CBMC float model, rand's StandardUniform conversion is executed (not stubbed), scripted RngCore supplies arbitrary words. update_rates is checked on a copy of its real body generated each run "
+                   "(kani/writer/gen_congress.py) whose `self.groups` is an array-backed stand-in for the hash map's values (the body never reads a key); bounded to 2 groups, never counted as proved. "
+                   "Kani's own 'NaN on multiplication/division' checks are not obligations of C12 (an intermediate NaN is absorbed by f32::min / the <= branch) and are ignored for these harnesses.",
         explanation="sampling decision and weight",
-        assumptions=["the RNG yields arbitrary words (any value of the draw)", "congress: sum(avg x rate) <= target and monotonicity are not decided"],
-        unreached=["CongressSample::update_rates / sample_rate / format (ahash map, Instant)"],
+        assumptions=["the RNG yields arbitrary words (any value of the draw)", "congress: sum(avg x rate) <= target, rate > 0 and monotonicity are not decided",
+                     "update_rates beyond 2 groups (bounded stand-in)"],
+        unreached=["CongressSample::sample_rate / format (ahash map, Instant)"],
     ),
     "C14": dict(
         verus=[("emf_fresh", {}), ("emf_value", {}, ["write_metric_value"]), ("emf_finish", {})],
